@@ -623,6 +623,12 @@ class ClientSSM(SSM):
     def segmented_confirmation(self, apdu):
         if _debug: ClientSSM._debug("segmented_confirmation %r", apdu)
 
+        # a segment ack for the request that was overtaken by the first
+        # segment of the response is late, not an error
+        if (apdu.apduType == SegmentAckPDU.pduType):
+            if _debug: ClientSSM._debug("    - late segment ack ignored")
+            return
+
         # the only messages we should be getting are complex acks
         if (apdu.apduType != ComplexAckPDU.pduType):
             if _debug: ClientSSM._debug("    - complex ack required")
